@@ -1,0 +1,181 @@
+package json
+
+import (
+	"fmt"
+	"maps"
+	"slices"
+	"strings"
+
+	cedarparser "github.com/cedar-policy/cedar-go/internal/parser"
+)
+
+// The JSON format carries every name as a string. The checks in this file accept exactly the
+// names that the Cedar text format can express, so that every schema read from JSON can also
+// be written as Cedar text and read back.
+
+// reservedTypeNames cannot be used as common type names: they are the "type" tags of the
+// built-in types.
+var reservedTypeNames = []string{
+	"Bool", "Boolean", "Entity", "Extension", "Long", "Record", "Set", "String",
+}
+
+// isIdentLike reports whether s has the form [_a-zA-Z][_a-zA-Z0-9]*. Reserved keywords have
+// this form too; they are allowed as annotation keys only.
+func isIdentLike(s string) bool {
+	for i, r := range s {
+		switch {
+		case r == '_', r >= 'a' && r <= 'z', r >= 'A' && r <= 'Z':
+		case i > 0 && r >= '0' && r <= '9':
+		default:
+			return false
+		}
+	}
+	return s != ""
+}
+
+// isIdent reports whether s is an identifier: the name of an entity type or of a common type,
+// or one component of a path.
+func isIdent(s string) bool {
+	return isIdentLike(s) && !cedarparser.IsReservedKeyword(s)
+}
+
+// isPath reports whether s is a namespace name: IDENT { '::' IDENT }.
+func isPath(s string) bool {
+	for _, part := range strings.Split(s, "::") {
+		if !isIdent(part) {
+			return false
+		}
+	}
+	return true
+}
+
+// isTypeName reports whether s can refer to a type: a path whose first component may also be
+// __cedar, the reserved namespace of the built-in types.
+func isTypeName(s string) bool {
+	first, rest, more := strings.Cut(s, "::")
+	if first != "__cedar" && !isIdent(first) {
+		return false
+	}
+	return !more || isPath(rest)
+}
+
+// checkNames returns an error for the first name (in key order) in the namespace that is not
+// allowed where it stands.
+func checkNames(jns jsonNamespace) error {
+	if err := checkAnnotations(jns.Annotations); err != nil {
+		return err
+	}
+	for _, name := range slices.Sorted(maps.Keys(jns.CommonTypes)) {
+		ct := jns.CommonTypes[name]
+		if !isIdent(name) {
+			return fmt.Errorf("common type %q: not a valid identifier", name)
+		}
+		if slices.Contains(reservedTypeNames, name) {
+			return fmt.Errorf("common type %q: reserved type name", name)
+		}
+		if err := checkAnnotations(ct.Annotations); err != nil {
+			return fmt.Errorf("common type %q: %w", name, err)
+		}
+		if err := checkType(&ct.jsonType); err != nil {
+			return fmt.Errorf("common type %q: %w", name, err)
+		}
+	}
+	for _, name := range slices.Sorted(maps.Keys(jns.EntityTypes)) {
+		et := jns.EntityTypes[name]
+		if !isIdent(name) {
+			return fmt.Errorf("entity type %q: not a valid identifier", name)
+		}
+		if err := checkAnnotations(et.Annotations); err != nil {
+			return fmt.Errorf("entity type %q: %w", name, err)
+		}
+		if err := checkTypeNames(et.MemberOfTypes); err != nil {
+			return fmt.Errorf("entity type %q: %w", name, err)
+		}
+		if et.Shape != nil {
+			if err := checkAttributes(et.Shape.Attributes); err != nil {
+				return fmt.Errorf("entity type %q shape: %w", name, err)
+			}
+		}
+		if et.Tags != nil {
+			if err := checkType(et.Tags); err != nil {
+				return fmt.Errorf("entity type %q tags: %w", name, err)
+			}
+		}
+	}
+	for _, name := range slices.Sorted(maps.Keys(jns.Actions)) {
+		action := jns.Actions[name]
+		if err := checkAnnotations(action.Annotations); err != nil {
+			return fmt.Errorf("action %q: %w", name, err)
+		}
+		for _, parent := range action.MemberOf {
+			if parent.Type != "" && !isTypeName(parent.Type) {
+				return fmt.Errorf("action %q: %q is not a valid type name", name, parent.Type)
+			}
+		}
+		if at := action.AppliesTo; at != nil {
+			if err := checkTypeNames(at.PrincipalTypes); err != nil {
+				return fmt.Errorf("action %q principal: %w", name, err)
+			}
+			if err := checkTypeNames(at.ResourceTypes); err != nil {
+				return fmt.Errorf("action %q resource: %w", name, err)
+			}
+			if at.Context != nil {
+				if err := checkType(at.Context); err != nil {
+					return fmt.Errorf("action %q context: %w", name, err)
+				}
+			}
+		}
+	}
+	return nil
+}
+
+func checkAnnotations(annotations map[string]string) error {
+	for _, key := range slices.Sorted(maps.Keys(annotations)) {
+		if !isIdentLike(key) {
+			return fmt.Errorf("annotation %q: not a valid identifier", key)
+		}
+	}
+	return nil
+}
+
+func checkTypeNames(names []string) error {
+	for _, name := range names {
+		if !isTypeName(name) {
+			return fmt.Errorf("%q is not a valid type name", name)
+		}
+	}
+	return nil
+}
+
+// checkType checks the names that unmarshalType turns into type references. Attribute names
+// and extension type names are not restricted here.
+func checkType(jt *jsonType) error {
+	switch jt.Type {
+	case "String", "Long", "Boolean", "Extension":
+		return nil
+	case "Set":
+		if jt.Element == nil {
+			return nil // reported by unmarshalType
+		}
+		return checkType(jt.Element)
+	case "Record":
+		return checkAttributes(jt.Attributes)
+	case "Entity", "EntityOrCommon":
+		return checkTypeNames([]string{jt.Name})
+	default:
+		return checkTypeNames([]string{jt.Type})
+	}
+}
+
+func checkAttributes(attributes map[string]jsonAttr) error {
+	for _, name := range slices.Sorted(maps.Keys(attributes)) {
+		attr := attributes[name]
+		if err := checkAnnotations(attr.Annotations); err != nil {
+			return fmt.Errorf("attribute %q: %w", name, err)
+		}
+		if err := checkType(&attr.jsonType); err != nil {
+			return fmt.Errorf("attribute %q: %w", name, err)
+		}
+	}
+	return nil
+}
